@@ -221,6 +221,26 @@ fn explain(ctx: &Ctx, typed: &str, c: &Cand) -> Result<&'static str, String> {
         .iter()
         .any(|(_, vals)| vals.iter().any(|v| v == s))
     {
+        // `-kpa`: the value is glued to the short name of its argument. The candidate replaces
+        // the whole word, so the bare value would drop the name from the line: `-k=path` it is
+        let mut cs = typed.chars();
+        if let (Some('-'), Some(c), Some(_)) = (cs.next(), cs.next(), cs.next()) {
+            let glued = c != '-'
+                && !typed.contains('=')
+                && path_names.iter().any(|(_, id, shorts)| {
+                    shorts.contains(&c)
+                        && ctx
+                            .completers
+                            .iter()
+                            .any(|(ids, vals)| ids.contains(id) && vals.iter().any(|v| v == s))
+                });
+            if glued {
+                return Err(format!(
+                    "bare value {:?} offered for a value glued to its short name ({:?}): accepting it drops the name",
+                    s, typed
+                ));
+            }
+        }
         return Ok("completer-value");
     }
     Err(format!("candidate {:?} is not explained by the definition", s))
